@@ -66,12 +66,34 @@ def gen_instance(rng, big=False):
             if c[5] is not None:
                 c[5] += rng.choice([0.25, 0.5])
             c[6] += rng.choice([0, 0.5])
+    depot = [rng.randrange(-3, 4), rng.randrange(-3, 4)]
+    y = rng.random()
+    if y < 0.08 and custs:
+        # nearly coincident geometry: lattice points moved by 2^-10 .. 2^-24, so that paths of equal length become paths
+        # whose lengths (and the arrival times at a shared customer) differ by 1e-3 .. 1e-8 instead of 0
+        for c in custs:
+            c[1] += rng.choice([-1, 0, 1]) * 2.0 ** -rng.choice([10, 14, 20, 24])
+            c[2] += rng.choice([-1, 0, 1]) * 2.0 ** -rng.choice([10, 14, 20, 24])
+    elif y < 0.12 and len(custs) >= 2:
+        # customers strung along one ray from the depot, a multi-vehicle customer at the far end, stops in between a hair off
+        # the line and without service time: a vehicle that detours through them arrives a hair later than one driving straight
+        dx, dy = rng.choice([(1, 0), (0, 1), (1, 1), (3, 4), (-1, 2)])
+        order = list(range(len(custs)))
+        rng.shuffle(order)
+        for rank, i in enumerate(order):
+            c = custs[i]
+            t = rank + 1
+            off = rng.choice([0, 1, -1]) * 2.0 ** -rng.choice([8, 10, 12, 20])
+            c[1], c[2] = depot[0] + dx * t - dy * off, depot[1] + dy * t + dx * off
+            c[4], c[5], c[6] = 0, None, 0
+        far = custs[order[-1]]
+        far[7] = rng.choice([2, 2, 3])
     cap_mode = rng.choice(["inf", "inf", "loose", "tight", "none_fits"])
     vehs = []
     for v in range(nv):
         cap = {"inf": None, "loose": 12, "tight": rng.choice([3, 5, 6]), "none_fits": 0}[cap_mode]
         vehs.append([cap])
-    return {"customers": custs, "vehicles": vehs, "depot": [rng.randrange(-3, 4), rng.randrange(-3, 4)]}
+    return {"customers": custs, "vehicles": vehs, "depot": depot}
 
 
 def gen_op(rng):
